@@ -388,7 +388,8 @@ def run_c11(t, tier, res):
     from lib_guesser.omen.optimizer import Optimizer
     from lib_scorer.omen_scorer import OmenScorer
     from lib_trainer.omen.evaluate_password import find_omen_level
-    flavour = {"nonascii": t.chance(1, 4), "nonbmp": t.chance(1, 8), "long": t.chance(1, 4), "large": t.chance(1, 30 if tier == "quick" else 8)}
+    flavour = {"nonascii": t.chance(1, 4), "nonbmp": t.chance(1, 8), "long": t.chance(1, 4), "large": t.chance(1, 30 if tier == "quick" else 8),
+               "hostile": t.chance(1, 5)}       # DEL, odd spaces, zero-width characters: accepted by the trainer, so part of the model
     pws, opts = trainer.gen_list(t, flavour)
     scratch.fresh_disk()
     tr = trainer.train(pws, opts)
